@@ -195,20 +195,32 @@ def build_program(rng, nexpr, depth):
             sized.append((kind, enc, tree, sz))
     total = sum(s[3] for s in sized)
     env["lz"] = pc + total
+    prev = None           # the previous data directive, when the next value of the same kind may be appended to its list
     for kind, enc, tree, sz in sized:
         text = ev.render(tree, sp=lambda: rng.choice([" ", " ", "", "  "]))
         # `a <b` style ambiguities: keep a space before modifiers/unary so that `<`/`>`/`-` never glue to an operator
         text = ev.render(tree, sp=lambda: " ")
-        line = len(lines)
         try:
             val = ev.evaluate(tree, env, pc)
             in_domain = True
         except ev.OutOfDomain as e:
             val, in_domain = str(e), False
-        stmt = "%s %s%s" % (kind, (enc + " ") if enc else "", text)
-        lines.append(stmt)
+        if in_domain and prev is not None and prev == kind and kind != ".text" and rng.random() < 0.35:
+            # one directive with several values: `*` in a later value is the address of that value's own bytes (the program
+            # counter advances with every value that is emitted)
+            line = len(lines) - 1
+            lines[line] += rng.choice([", ", ",", " , "]) + text
+            stmt = "%s ..., %s" % (kind, text)
+            items[-1]["listed"] = True
+            listed = True
+        else:
+            line = len(lines)
+            stmt = "%s %s%s" % (kind, (enc + " ") if enc else "", text)
+            lines.append(stmt)
+            listed = False
+        prev = kind if in_domain else None
         items.append({"line": line, "kind": kind, "enc": enc or "ascii", "tree": tree, "text": stmt, "size": sz, "val": val,
-                      "in_domain": in_domain, "pc": pc})
+                      "in_domain": in_domain, "pc": pc, "listed": listed})
         pc += sz
     lines.append("lz:")
     return "\n".join(lines) + "\n", items, env
@@ -313,6 +325,8 @@ def shard(idx, n, seed, tier, params):
                 continue
             acc.nontriv(it["text"], it["pc"])
             acc.count("judged" + it["kind"])
+            if it.get("listed"):
+                acc.count("judged.value_in_a_list_of_several")
             for sub in ev.subtrees(it["tree"]):
                 if sub[0] == "bin":
                     for side, ch in (("l", sub[2]), ("r", sub[3])):
@@ -353,4 +367,5 @@ def main(tier, seed):
              ".text and compared with unbounded-integer evaluation. Out-of-domain trees (i64 overflow, zero divisor, shift count "
              "outside 0..31) are dropped. Non-trivial = distinct (directive text, address) judged.",
         assumptions=["/ and % truncate toward zero (C/Rust semantics; the guide is silent)",
+                     "`*` in a value of a data directive with several values is the address of that value's own bytes (the program counter advances with every value emitted)",
                      "petscii/petscreen judged only on [a-z0-9 @], ASCII punctuation 0x20-0x3F and A-Z"])
